@@ -32,8 +32,11 @@ Definition iri_mode (r : N) (ascii : bool) : emode :=
   else ENone.
 
 (* literalStringMustEscapeRune *)
+(* the canonical N-Triples / N-Quads form: ECHAR for BS HT LF FF CR quote backslash, UCHAR for the other control
+   characters, DEL and the non-characters U+FFFE U+FFFF *)
 Definition lit_mode (r : N) (ascii : bool) : emode :=
-  if N.eqb r 34 || N.eqb r 92 || N.eqb r 10 || N.eqb r 13 then EEchar
+  if N.eqb r 8 || N.eqb r 9 || N.eqb r 10 || N.eqb r 12 || N.eqb r 13 || N.eqb r 34 || N.eqb r 92 then EEchar
+  else if (r <=? 31)%N || N.eqb r 127 || N.eqb r 65534 || N.eqb r 65535 then EU4
   else if ascii then (if (65535 <? r)%N then EU8 else if (127 <? r)%N then EU4 else ENone)
   else ENone.
 
